@@ -10,7 +10,7 @@
    every order [ord] in which the leaves draw their number from the atomic
    counter (any injection of the leaves into [0, part_count)). *)
 From Coq Require Import Permutation QArith Floats.SpecFloat.
-From Coupe Require Import Lib.Prelude Lib.SFloat Model.MultiJagged Proofs.MultiJaggedProofs Proofs.MultiJaggedExact Proofs.MultiJaggedSim Proofs.MultiJaggedTotal Proofs.MultiJaggedSep Gen.MjGen Gen.MjSortGen.
+From Coupe Require Import Lib.Prelude Lib.SFloat Model.MultiJagged Proofs.MultiJaggedProofs Proofs.MultiJaggedExact Proofs.MultiJaggedSim Proofs.MultiJaggedTotal Proofs.MultiJaggedSep Gen.MjGen Gen.MjSortGen Gen.MjRecGen.
 Open Scope N_scope.
 
 (* the literals of multi_jagged.rs the model is written against, re-read from the source on every run *)
@@ -158,6 +158,16 @@ Print Assumptions C11_leaf_order_irrelevant.
    what the sort oracle [sorter_ok] stands for.  Fails closed (Gen/MjSortGen.v). *)
 Theorem C11_axis_sort_fingerprint : mj_axis_sort_is_one_unstable_sort_by_coordinate = true.
 Proof. exact eq_refl. Qed.
+
+(* the recursion: multi_jagged_with_scheme, multi_jagged_recurse (in particular the
+   leaf: one fetch_add, then ONE store per index of the WHOLE permutation slice via
+   `permutation.par_iter().for_each` — no chunking, no fixed buffers) and
+   split_at_mut_many are, comments and white space aside, the text the model was
+   written against.  Fails closed (Gen/MjRecGen.v). *)
+Theorem C11_recursion_fingerprint :
+  mj_recurse_is_fingerprinted_text = true /\ mj_split_at_mut_many_is_fingerprinted_text = true /\
+  mj_with_scheme_is_fingerprinted_text = true.
+Proof. repeat split; exact eq_refl. Qed.
 
 (* A checker for the jagged clause whose `false` IS a failing input: if the ids
    form a JaggedTree of the scheme's shape — for ANY assignment of parts to
